@@ -131,6 +131,11 @@ pub fn domain_type_well_formed(members: &[(String, String)]) -> bool {
 pub struct Digests { pub domain_separator: [u8; 32], pub message_hash: [u8; 32], pub digest: [u8; 32] }
 
 pub fn evaluate(doc: &Doc) -> (Class<Digests>, String) {
+    let o = evaluate_raw(doc);
+    crate::trace::rec("eip712", 8000, || { let t = doc.to_json().to_text(); (crate::trace::q(&t), match &o.0 { Class::Reject => "\"reject\"".into(), Class::Accept(d) | Class::Unc(d) => format!("[\"{}\",{},{},{}]", o.0.name(), crate::trace::h(&d.domain_separator), crate::trace::h(&d.message_hash), crate::trace::h(&d.digest)) }) });
+    o
+}
+fn evaluate_raw(doc: &Doc) -> (Class<Digests>, String) {
     let mut unc = false;
     let r = (|| -> R<Digests> {
         let dm = doc.members("EIP712Domain").ok_or_else(|| Nonconforming("no EIP712Domain type".into()))?;
